@@ -227,8 +227,12 @@ def make_state_tree(shape, rng, counter, depth=0):
     if r < 0.75:
       return nnx.VariableState(type=nnx.BatchStat, value=jnp.full((2,), float(k)), tag='t%d' % (k % 2))
     return jnp.asarray(k)
-  if rng.random() < 0.3:
+  r0 = rng.random()
+  if r0 < 0.3:
     ks = rng.sample([0, 1, 2, 10, 3], len(shape)) if len(shape) <= 5 else list(range(len(shape)))
+  elif r0 < 0.42 and len(shape) <= 5:
+    # genuine STRING keys that look like integers (dict attributes keyed '0', '1', ...): they are not list indices
+    ks = rng.sample(['0', '1', '10', '1_0', '007'], len(shape))
   else:
     ks = rng.sample(['a', 'b', 'c', 'l10', 'l2', 'B', '_x', 'zz'], len(shape))
   return {k: make_state_tree(c, rng, counter, depth + 1) for k, c in zip(ks, shape)}
